@@ -100,3 +100,13 @@ Print Assumptions C03_fetch_policy.
 Print Assumptions C03_getbulk_max_repetitions.
 Print Assumptions C03_strict_roundtrip_community.
 Print Assumptions C03_strict_roundtrip_v3.
+
+(* --- the Python layer hands get_many's OIDs to the socket unchanged (order and repetitions), sync and async *)
+From GS Require Import Model.Base Model.Exc Model.Walk Model.PyLayer Proofs.PyLayerProofs.
+Theorem C03_getmany_passes_oids :
+  forall (cfg : pycfg) (fuel : nat) (oids : list bytes) (script : list tok) (m : meth) (l : list bytes), In (EvSock m (AOids l)) (r_events (run_api cfg fuel (ApiGetMany oids) script)) -> l = oids.
+Proof. exact getmany_passes_oids. Qed.
+
+Check C03_getmany_passes_oids :
+  forall (cfg : pycfg) (fuel : nat) (oids : list bytes) (script : list tok) (m : meth) (l : list bytes), In (EvSock m (AOids l)) (r_events (run_api cfg fuel (ApiGetMany oids) script)) -> l = oids.
+Print Assumptions C03_getmany_passes_oids.
